@@ -99,7 +99,8 @@ META["C07"] = {
     "engine": "M+G+V", "design_ref": "DESIGN.md section 6 (C07)", "note": HIST_NOTE + " Thread "
             "interleavings: one pre-emption at line granularity (sys.settrace), not bytecode-level races.",
     "technique": "TLC model of the object model as a machine over a heap of mutable containers (MC_Api: Faithful holds, the two "
-                 "aliasing designs are refuted); its behaviours replayed into the library and random API-call histories are "
+                 "aliasing designs are refuted) and of threads sharing one domain (MC_Threads: every interleaving at the grain of shared-heap "
+                 "accesses, the two sharing designs refuted with one pre-emption); their behaviours / schedules replayed into the library and random API-call histories are "
                  "validated against the PddlApi store: after every call every live handle still has its stored value",
     "text": "MC_Api behaviours (exhaustive short, simulated long) and random call histories over one shared domain are recorded with a snapshot of every live handle after each call; "
             "the trace specification checks store'[h] = store[h] for all handles and that each call's result equals the "
